@@ -54,6 +54,8 @@ def run(ctx):
     # B: clocked traces
     n = 16 if ctx.quick else 150
     corelib.run_modes(ctx, "C04", [("timing", n), ("contend", n // 2)])
+    if not ctx.quick:
+        corelib.repo_tests(ctx, "C04")
     ctx.cov["distinct_nontrivial"] = len(rows) + len(ctx.notes.get("event_kinds", {}))
     ctx.cov["rule"] = ("evaluations = concrete spellings replayed + hook/harness events validated; distinct = table rows "
                        "(command x form x magnitude) + event kinds exercised")
